@@ -1,12 +1,28 @@
-/- C04 — ownership conservation (initial: RawLRU put/remove/purge/drop as multiset equations) -/
-import Caches.Lemmas.RawLru
+/-
+  C04 — ownership conservation: every key and value is released exactly once, none leak.
+
+  `held l` is the list of key and value *objects* a list retains; `heldAll` of a composite cache adds up all its
+  lists, ghost lists included. Every theorem is a counting equation that holds for **each** object `o`:
+
+      #held-before + #handed-in  =  #held-after + #handed-back-in-the-result + #dropped-by-the-cache
+
+  so nothing is dropped twice (a second drop would make the right side too big), nothing leaks (a lost object would
+  make it too small) and nothing is dropped while still retained. They hold for every well-formed state — after every
+  history, by the reachability theorems of C01/C05. `purge` and `Drop` release exactly everything that is held.
+  The model's drop list is what the harness compares with the real drop log (serial numbers per object) and the
+  allocator balance after `drop`.
+-/
+import Caches.Lemmas.Conserve
+import Caches.Lemmas.ConserveSlru
+import Caches.Lemmas.ConserveTwoQ
+import Caches.Lemmas.ConserveArc
+import Caches.Lemmas.ConserveWt
 set_option linter.unusedSectionVars false
 namespace C04
 open M M.RawLru
 variable {κ ν : Type} [DecidableEq κ] [DecidableEq ν]
 
-/-- all key and value objects a list retains -/
-def held (l : AL κ ν) : List (Obj κ ν) := l.flatMap dropEnt
+/-! ## RawLRU -/
 
 /-- `purge` releases everything it held: the dropped objects are exactly the retained ones (least recent first) -/
 theorem rawlru_purge_releases (c : RawLru κ ν) :
@@ -21,57 +37,111 @@ theorem rawlru_remove_conserves (c : RawLru κ ν) (k : κ) (v : ν) (h : find k
     c.remove k = ({ c with items := erase k c.items }, some v, { cbs := c.cbOf (k, v), drops := [.key k] }) := by
   simp [RawLru.remove, h]
 
-theorem held_cons (e : κ × ν) (t : AL κ ν) : held (e :: t) = [Obj.key e.1, Obj.val e.2] ++ held t := by
-  simp [held, dropEnt]
-
-theorem held_erase (l : AL κ ν) (k : κ) (old : ν) (h : find k l = some old) (o : Obj κ ν) :
-    (held l).count o = (held (erase k l)).count o + ([Obj.key k, Obj.val old] : List (Obj κ ν)).count o := by
-  induction l with
-  | nil => simp [find] at h
-  | cons a t ih =>
-    obtain ⟨ak, av⟩ := a
-    by_cases hk : ak = k
-    · subst hk
-      simp only [find, if_true] at h; injection h with h; subst h
-      simp only [erase, if_true, held_cons, List.count_append]; omega
-    · simp only [find, hk, if_false] at h
-      simp only [erase, hk, if_false, held_cons, List.count_append, ih h]; omega
-
-theorem held_dropLast (l : AL κ ν) (e : κ × ν) (h : l.getLast? = some e) (o : Obj κ ν) :
-    (held l).count o = (held l.dropLast).count o + ([Obj.key e.1, Obj.val e.2] : List (Obj κ ν)).count o := by
-  have hne : l ≠ [] := by intro hc; simp [hc] at h
-  have h2 := List.getLast?_eq_some_getLast hne
-  rw [h] at h2
-  have hs := List.dropLast_concat_getLast hne
-  rw [← Option.some.inj h2] at hs
-  conv => lhs; rw [← hs]
-  simp [held, dropEnt, List.flatMap_append, List.count_append]
-
-/-- `put` conserves objects: counting every object, retained-before + handed-in = retained-after + handed-back + dropped -/
 theorem rawlru_put_conserves (c c' : RawLru κ ν) (k : κ) (v : ν) (r : PutResult κ ν) (e : Eff κ ν)
     (hp : c.put k v = .ok (c', r, e)) (o : Obj κ ν) :
     (held c.items).count o + ([Obj.key k, Obj.val v] : List (Obj κ ν)).count o =
-      (held c'.items).count o + r.drops.count o + e.drops.count o := by
-  unfold RawLru.put at hp
-  cases hf : find k c.items with
-  | some old =>
-    simp [hf] at hp; obtain ⟨rfl, rfl, rfl⟩ := hp
-    simp only [use, held_cons, List.count_append, PutResult.drops, held_erase _ k old hf o]
-    simp only [List.count_cons, List.count_nil]; omega
-  | none =>
-    simp only [hf] at hp
-    by_cases h0 : c.cap = 0
-    · simp [h0] at hp; obtain ⟨rfl, rfl, rfl⟩ := hp
-      simp only [PutResult.drops, List.count_nil]; omega
-    · simp only [h0, if_false] at hp
-      by_cases hfull : c.items.length = c.cap
-      · simp only [hfull, if_true] at hp
-        cases hl : c.items.getLast? with
-        | none => simp [hl] at hp
-        | some lru =>
-          simp [hl] at hp; obtain ⟨rfl, rfl, rfl⟩ := hp
-          simp only [held_cons, List.count_append, PutResult.drops, held_dropLast _ lru hl o]
-          simp only [List.count_cons, List.count_nil]; omega
-      · simp [hfull] at hp; obtain ⟨rfl, rfl, rfl⟩ := hp
-        simp only [held_cons, List.count_append, PutResult.drops, List.count_nil]; omega
+      (held c'.items).count o + r.drops.count o + e.drops.count o := RawLru.put_count c c' k v r e hp o
+
+theorem rawlru_remove_counts (c : RawLru κ ν) (k : κ) (o : Obj κ ν) :
+    (held c.items).count o = (held (c.remove k).1.items).count o + (objsV (c.remove k).2.1 : List (Obj κ ν)).count o +
+      (c.remove k).2.2.drops.count o := RawLru.remove_count c k o
+
+theorem rawlru_removeLru_counts (c : RawLru κ ν) (o : Obj κ ν) :
+    (held c.items).count o = (held c.removeLru.1.items).count o + (objsE c.removeLru.2.1 : List (Obj κ ν)).count o :=
+  RawLru.removeLru_count c o
+
+/-! ## SegmentedCache -/
+
+theorem slru_put_conserves (s s' : Slru κ ν) (k : κ) (v : ν) (r : PutResult κ ν) (d : List (Obj κ ν)) (h : s.Inv)
+    (hp : s.put k v = .ok (r, s', d)) (o : Obj κ ν) :
+    s.heldAll.count o + ([Obj.key k, Obj.val v] : List (Obj κ ν)).count o =
+      s'.heldAll.count o + r.drops.count o + d.count o := Slru.put_count s s' k v r d h hp o
+
+theorem slru_putProtected_conserves (s s' : Slru κ ν) (k : κ) (v : ν) (r : PutResult κ ν) (d : List (Obj κ ν))
+    (hp : s.putProtected k v = .ok (r, s', d)) (o : Obj κ ν) :
+    s.heldAll.count o + ([Obj.key k, Obj.val v] : List (Obj κ ν)).count o =
+      s'.heldAll.count o + r.drops.count o + d.count o := Slru.putProtected_count s s' k v r d hp o
+
+theorem slru_get_conserves (s s' : Slru κ ν) (k : κ) (w r : Option ν) (h : s.Inv) (hp : s.getMut k w = .ok (r, s'))
+    (o : Obj κ ν) :
+    s.heldAll.count o + (wrIn r w : List (Obj κ ν)).count o = s'.heldAll.count o + (wrOut r w : List (Obj κ ν)).count o :=
+  Slru.getMut_count s s' k w r h hp o
+
+theorem slru_remove_conserves (s : Slru κ ν) (k : κ) (o : Obj κ ν) :
+    s.heldAll.count o = (s.remove k).1.heldAll.count o + (objsV (s.remove k).2.1 : List (Obj κ ν)).count o +
+      (s.remove k).2.2.count o := Slru.remove_count s k o
+
+theorem slru_purge_releases (s : Slru κ ν) (o : Obj κ ν) :
+    ∃ s' d, s.purge = .ok (s', d) ∧ s'.heldAll = [] ∧ s.heldAll.count o = d.count o := Slru.purge_count s o
+
+theorem slru_drop_releases (s : Slru κ ν) : s.dropCache = s.heldAll := rfl
+
+/-! ## TwoQueueCache (ghost entries keep their values and are owned like any other entry) -/
+
+theorem twoq_put_conserves (q : TwoQ κ ν) (k : κ) (v : ν) (h : q.Inv) :
+    ∃ r q' d, q.put k v = .ok (r, q', d) ∧ ∀ o : Obj κ ν,
+      q.heldAll.count o + ([Obj.key k, Obj.val v] : List (Obj κ ν)).count o =
+        q'.heldAll.count o + r.drops.count o + d.count o := TwoQ.put_count q k v h
+
+theorem twoq_get_conserves (q : TwoQ κ ν) (k : κ) (w : Option ν) (h : q.Inv) :
+    ∃ r q', q.getMut k w = .ok (r, q') ∧ ∀ o : Obj κ ν,
+      q.heldAll.count o + (wrIn r w : List (Obj κ ν)).count o = q'.heldAll.count o + (wrOut r w : List (Obj κ ν)).count o :=
+  TwoQ.getMut_count q k w h
+
+theorem twoq_remove_conserves (q : TwoQ κ ν) (k : κ) (o : Obj κ ν) :
+    q.heldAll.count o = (q.remove k).1.heldAll.count o + (objsV (q.remove k).2.1 : List (Obj κ ν)).count o +
+      (q.remove k).2.2.count o := TwoQ.remove_count q k o
+
+theorem twoq_purge_releases (q : TwoQ κ ν) (o : Obj κ ν) :
+    ∃ q' d, q.purge = .ok (q', d) ∧ q'.heldAll = [] ∧ q.heldAll.count o = d.count o := TwoQ.purge_count q o
+
+theorem twoq_drop_releases (q : TwoQ κ ν) (o : Obj κ ν) : q.dropCache.count o = q.heldAll.count o := TwoQ.drop_count q o
+
+/-! ## AdaptiveCache (ghost entries pushed out or trimmed are dropped by the cache, and counted) -/
+
+theorem arc_put_conserves (a a' : Arc κ ν) (k : κ) (v : ν) (r : PutResult κ ν) (d : List (Obj κ ν))
+    (hp : a.put k v = .ok (r, a', d)) (o : Obj κ ν) :
+    a.heldAll.count o + ([Obj.key k, Obj.val v] : List (Obj κ ν)).count o =
+      a'.heldAll.count o + r.drops.count o + d.count o := Arc.put_count a a' k v r d hp o
+
+theorem arc_get_conserves (a a' : Arc κ ν) (k : κ) (w r : Option ν) (d : List (Obj κ ν))
+    (hp : a.getMut k w = .ok (r, a', d)) (o : Obj κ ν) :
+    a.heldAll.count o + (wrIn r w : List (Obj κ ν)).count o =
+      a'.heldAll.count o + (wrOut r w : List (Obj κ ν)).count o + d.count o := Arc.getMut_count a a' k w r d hp o
+
+theorem arc_remove_conserves (a : Arc κ ν) (k : κ) (o : Obj κ ν) :
+    a.heldAll.count o = (a.remove k).1.heldAll.count o + (objsV (a.remove k).2.1 : List (Obj κ ν)).count o +
+      (a.remove k).2.2.count o := Arc.remove_count a k o
+
+theorem arc_purge_releases (a : Arc κ ν) (o : Obj κ ν) :
+    ∃ a' d, a.purge = .ok (a', d) ∧ a'.heldAll = [] ∧ a.heldAll.count o = d.count o := Arc.purge_count a o
+
+theorem arc_drop_releases (a : Arc κ ν) (o : Obj κ ν) : a.dropCache.count o = a.heldAll.count o := Arc.drop_count a o
+
+/-! ## WTinyLFUCache -/
+
+theorem wtinylfu_put_conserves (c c' : WTinyLfu κ ν) (kh : κ → UInt64) (k : κ) (v : ν) (r : PutResult κ ν)
+    (d : List (Obj κ ν)) (hi : c.Inv) (hp : c.put kh k v = .ok (r, c', d)) (o : Obj κ ν) :
+    c.heldAll.count o + ([Obj.key k, Obj.val v] : List (Obj κ ν)).count o =
+      c'.heldAll.count o + r.drops.count o + d.count o := WTinyLfu.put_count c c' kh k v r d hi hp o
+
+theorem wtinylfu_get_conserves (c c' : WTinyLfu κ ν) (kh : κ → UInt64) (k : κ) (w r : Option ν) (hi : c.Inv)
+    (hp : c.getMut kh k w = .ok (r, c')) (o : Obj κ ν) :
+    c.heldAll.count o + (wrIn r w : List (Obj κ ν)).count o = c'.heldAll.count o + (wrOut r w : List (Obj κ ν)).count o :=
+  WTinyLfu.getMut_count c c' kh k w r hi hp o
+
+theorem wtinylfu_remove_conserves (c : WTinyLfu κ ν) (k : κ) (o : Obj κ ν) :
+    c.heldAll.count o = (c.remove k).1.heldAll.count o + (objsV (c.remove k).2.1 : List (Obj κ ν)).count o +
+      (c.remove k).2.2.count o := WTinyLfu.remove_count c k o
+
+theorem wtinylfu_purge_releases (c : WTinyLfu κ ν) (o : Obj κ ν) :
+    ∃ c' d, c.purge = .ok (c', d) ∧ c'.heldAll = [] ∧ c.heldAll.count o = d.count o := WTinyLfu.purge_count c o
+
+theorem wtinylfu_drop_releases (c : WTinyLfu κ ν) : c.dropCache = c.heldAll := rfl
+
+/-- non-vacuity: an ARC `put` that pushes an entry out of a full ghost list drops exactly that entry -/
+example : (match ({ size := 1, p := 0, recent := ⟨1, [(1, 10)], false⟩, frequent := ⟨1, [], false⟩,
+                    recentEvict := ⟨1, [(2, 20)], false⟩, frequentEvict := ⟨1, [], false⟩ } : Arc Nat Nat).put 3 30 with
+           | .ok (r, a', d) => (a'.recent.items, a'.recentEvict.items, d) | .error _ => ([], [], []))
+          = ([(3, 30)], [(1, 10)], [Obj.key 2, Obj.val 20]) := by decide
 end C04
